@@ -833,6 +833,18 @@ def t_loops(ctx):
                           (" - " + reason) if reason else (" - within the reviewed number of loops of %s (%d <= %d): moved between functions of that file" % (fl, now[fl], led[fl]) if moved else " (no termination argument on file)")),
                           site=loops[0][-1] if isinstance(loops[0][-1], str) else None, undecided=moved))
             # automatic part for the reader-driven loops
+            def eats_call(x):
+                """Reader::eat, or a crate-local helper whose first action is to eat from the reader it is handed"""
+                if not (isinstance(x, tuple) and x and x[0] == "call"):
+                    return False
+                if x[1].endswith("Reader::eat"):
+                    return True
+                hb = next((b0 for n0, b0 in f.thir.items() if T.canon(n0) == x[1]), None)
+                if hb is None or not x[1].startswith("decodation::"):
+                    return False
+                hs = T.stmts(hb["body"], {"__noinline__": True})
+                first = next((st0 for st0 in hs if st0[0] in ("let", "letpat", "expr")), None)
+                return first is not None and any(isinstance(y, tuple) and y and y[0] == "call" and y[1].endswith("Reader::eat") for e0 in T.stmt_exprs(first) for y in T.sx_walk(e0))
             if cn in ("decodation::decode_x12", "decodation::decode_c40_like", "decodation::decode_edifact", "decodation::decode_ascii"):
                 for k, lp in enumerate(loops):
                     body = lp[1]
@@ -841,7 +853,7 @@ def t_loops(ctx):
                     cond_eats = cond is not None and cond[0] == "iflet" and cond[1][0] == "call" and cond[1][1].endswith("Reader::eat")
                     progressed = cond_eats
                     for st in then:
-                        if any(x[0] == "call" and x[1].endswith("Reader::eat") for e in T.stmt_exprs(st) for x in T.sx_walk(e)) and st[0] in ("let", "letpat", "expr"):
+                        if any(eats_call(x) for e in T.stmt_exprs(st) for x in T.sx_walk(e)) and st[0] in ("let", "letpat", "expr"):
                             progressed = True
                             break
                         if st[0] == "if" and all(y[0] in ("break", "return") for y in st[2][-1:]) and not st[3]:
@@ -849,7 +861,7 @@ def t_loops(ctx):
                         if st[0] == "if":
                             # an `if` that may fall through without eating: only fine if both arms eat or exit
                             def arm_ok(arm):
-                                return any(y[0] in ("break", "return") for y in arm[-1:]) or any(x[0] == "call" and x[1].endswith("Reader::eat") for y in T.stmt_walk(arm) for e in T.stmt_exprs(y) for x in T.sx_walk(e))
+                                return any(y[0] in ("break", "return") for y in arm[-1:]) or any(eats_call(x) for y in T.stmt_walk(arm) for e in T.stmt_exprs(y) for x in T.sx_walk(e))
                             if arm_ok(st[2]) and (arm_ok(st[3]) if st[3] else False):
                                 progressed = True
                             break
